@@ -519,7 +519,7 @@ def parse_bad(log, name):
 # ---------------------------------------------------------------------------
 # the attrs suite
 
-def fetch_cmds(msg, seq, rng, both=False):
+def fetch_cmds(msg, seq, rng, both=False, chunks=0, light=False):
     """list of (kind, info, command text) for message number seq"""
     cmds = [("main", None, "FETCH %d (RFC822.SIZE BODYSTRUCTURE ENVELOPE BODY.PEEK[] BODY.PEEK[HEADER] BODY.PEEK[TEXT])" % seq)]
     nodes = tree_paths(msg["tree"])
@@ -548,6 +548,19 @@ def fetch_cmds(msg, seq, rng, both=False):
         cmds.append(("all_partial", {"part": part}, "FETCH %d BODY.PEEK[]<%d.%d>" % (seq, part[0], part[1])))
     if not pick or both:
         cmds.append(("header_partial", {"part": part}, "FETCH %d (BODY.PEEK[HEADER]<%d.%d> BODY.PEEK[])" % (seq, part[0], part[1])))
+    if chunks:
+        # a client downloading the message in pieces of `chunks` octets (the reconstructed text is
+        # at most a few hundred octets longer than what was submitted; pieces past the end are empty)
+        o = 0
+        k = 0
+        while o < len(msg["text"]) + 700:
+            cmds.append(("all_partial", {"part": (o, chunks), "chunk": k}, "FETCH %d BODY.PEEK[]<%d.%d>" % (seq, o, chunks)))
+            o += chunks
+            k += 1
+    if light:
+        keep = [c for c in cmds if c[0] == "main" or "chunk" in (c[1] or {}) or (c[0] == "path" and not (c[1] or {}).get("absent"))]
+        rest = [c for c in cmds if c not in keep]
+        cmds = keep + rng.sample(rest, min(2, len(rest)))
     return cmds
 
 
@@ -570,6 +583,110 @@ def scenario_ops(msgs, rng, both=False):
     ops.append({"op": "sql", "store": "user_db_1", "q": "select id, message_id, part_number, parent_part_id, content_type, content_transfer_encoding, blob_id, text_content from message_parts order by id"})
     ops.append({"op": "sql", "store": "shared", "q": "select id, content from blobs"})
     return ops, plan, q
+
+
+R1 = "sales@example.com"
+ROLEBOX = "Roles/%s/INBOX" % R1
+PARTS_Q = "select id, message_id, part_number, parent_part_id, content_type, content_transfer_encoding, blob_id, text_content from message_parts order by id"
+
+
+def stores_scenario(rng, k=3):
+    """One connection of a user who also has a role mailbox.  The personal store
+    and the role store hold DIFFERENT messages under the same message ids.
+    Attribute sets are fetched while switching between the two stores (SELECT /
+    EXAMINE, after CLOSE / UNSELECT, in both orders), then in one mailbox
+    repeatedly, interleaved with other messages, APPEND and EXPUNGE, and as a
+    chunked download.  Every fetch set is judged on its own against the store
+    that was selected."""
+    import proto_common as P
+    pers = [gen_message(rng, 100 + i) for i in range(k)]
+    role = [gen_message(rng, 200 + i) for i in range(k)]
+    extra = gen_message(rng, 300)
+    ops = [{"op": "open", "conn": "s0", "kind": "tls"},
+           {"op": "send", "conn": "s0", "data": "s1 LOGIN %s pw\r\n" % A, "until": "tag:s1"},
+           {"op": "send", "conn": "s0", "data": "s2 LOGOUT\r\n", "until": "tag:s2"},
+           {"op": "role_create", "email": R1}, {"op": "role_assign", "user": A, "role": 1},
+           {"op": "lmtp_open", "conn": "l1"},
+           {"op": "send", "conn": "l1", "data": "LHLO x\r\n", "until": "lmtp:1"}]
+    lmtp_idx = []
+    for i in range(k):
+        for rcpt, m in ((A, pers[i]), (R1, role[i])):
+            ops += P.lmtp_deliver("l1", rcpt, C.latin(m["text"]))
+            lmtp_idx.append(len(ops) - 1)
+    ops += [{"op": "open", "conn": "sa", "kind": "tls"},
+            {"op": "send", "conn": "sa", "data": "s1 LOGIN %s pw\r\n" % A, "until": "tag:s1"}]
+    plan, grp, vm, sel = [], [], [], []
+    ntag = [0]
+
+    def cmd(text, literal=None):
+        ntag[0] += 1
+        t = "c%d" % ntag[0]
+        if literal is None:
+            ops.append({"op": "send", "conn": "sa", "data": "%s %s\r\n" % (t, text), "until": "tag:" + t})
+        else:
+            ops.append({"op": "send", "conn": "sa", "data": "%s %s {%d}\r\n" % (t, text, len(literal)), "until": "cont:" + t})
+            ops.append({"op": "send", "conn": "sa", "data": C.latin(literal) + "\r\n", "until": "tag:" + t, "only_if_cont": True})
+        return t
+
+    def fetch_set(m, store, msgid, seq, how, chunks=0):
+        vi = len(grp)
+        grp.append(m)
+        vm.append((store, msgid))
+        sel.append(how)
+        for (kind, info, c) in fetch_cmds(m, seq, rng, both=False, chunks=chunks, light=True):
+            ntag[0] += 1
+            t = "c%d" % ntag[0]
+            plan.append((len(ops), vi, kind, info, c))
+            ops.append({"op": "send", "conn": "sa", "data": "%s %s\r\n" % (t, c), "until": "tag:" + t})
+
+    # (1) switching stores
+    cur = rng.choice(["user_db_1", "role_db_1"])
+    last_i = rng.randrange(k)
+    for step in range(7):
+        pre = rng.choice(["", "", "CLOSE", "UNSELECT"]) if step else ""
+        if pre:
+            cmd(pre)
+        verb = rng.choice(["SELECT", "SELECT", "EXAMINE"])
+        cmd("%s %s" % (verb, "INBOX" if cur == "user_db_1" else ROLEBOX))
+        how = "%s%s %s" % (pre + "; " if pre else "", verb, "INBOX" if cur == "user_db_1" else ROLEBOX)
+        i = last_i if rng.random() < 0.75 else rng.randrange(k)
+        last_i = i
+        fetch_set((pers if cur == "user_db_1" else role)[i], cur, i + 1, i + 1, how)
+        if rng.random() < 0.4:
+            j = rng.randrange(k)
+            fetch_set((pers if cur == "user_db_1" else role)[j], cur, j + 1, j + 1, how)
+        if rng.random() < 0.85:
+            cur = "role_db_1" if cur == "user_db_1" else "user_db_1"
+    # (2) one mailbox: repeated and interleaved fetches, APPEND, EXPUNGE, chunked download
+    cmd("SELECT INBOX")
+    how = "SELECT INBOX (repeated / interleaved)"
+    seqs = [(pers[i], i + 1) for i in range(k)]
+    fetch_set(seqs[0][0], "user_db_1", seqs[0][1], 1, how)
+    fetch_set(seqs[1][0], "user_db_1", seqs[1][1], 2, how)
+    fetch_set(seqs[0][0], "user_db_1", seqs[0][1], 1, how, chunks=rng.choice([64, 100, 257]))
+    cmd("APPEND INBOX", literal=extra["text"])
+    seqs.append((extra, k + 1))
+    fetch_set(seqs[0][0], "user_db_1", seqs[0][1], 1, how + " after APPEND")
+    fetch_set(extra, "user_db_1", k + 1, k + 1, how + " after APPEND")
+    d = rng.choice([1, 2])
+    cmd("STORE %d +FLAGS (\\Deleted)" % d)
+    cmd("EXPUNGE")
+    del seqs[d - 1]
+    for sq in (d, 1, len(seqs)):
+        if 1 <= sq <= len(seqs):
+            fetch_set(seqs[sq - 1][0], "user_db_1", seqs[sq - 1][1], sq, how + " after EXPUNGE of %d" % d, chunks=(rng.choice([80, 500]) if sq == len(seqs) else 0))
+    q = len(ops)
+    ops.append({"op": "sql", "store": "user_db_1", "q": PARTS_Q})
+    ops.append({"op": "sql", "store": "role_db_1", "q": PARTS_Q})
+    ops.append({"op": "sql", "store": "shared", "q": "select id, content from blobs"})
+    ext = {"vm": vm, "sel": sel, "sql": {"user_db_1": q, "role_db_1": q + 1}, "blobs": q + 2, "lmtp_idx": lmtp_idx}
+    return grp, (ops, plan, q, ext)
+
+
+def run_stores(chk, nscen):
+    sc = [stores_scenario(chk.rng) for _ in range(nscen)]
+    results = C.run_many([b[0] for _, b in sc], workers=12)
+    return evaluate_attrs(chk, [g for g, _ in sc], [b for _, b in sc], results, name="C14_stores")
 
 
 def canon_b(s):
@@ -627,8 +744,13 @@ def run_attrs(chk, nmsg, per=8):
     return evaluate_attrs(chk, groups, built, results)
 
 
-def evaluate_attrs(chk, groups, built, results, corpus_mode=False):
-    """spec on the implementation's outputs + model comparison in Coq"""
+def evaluate_attrs(chk, groups, built, results, corpus_mode=False, name=None):
+    """spec on the implementation's outputs + model comparison in Coq.
+    built[i] = (ops, plan, q) for the plain scenarios (message k of the group is
+    message id k+1 of user_db_1), or (ops, plan, q, ext) where every entry of
+    the group is one FETCH SET (attribute set fetched while one mailbox of one
+    store is selected): ext["vm"][k] = (store, message id), ext["sql"] = {store:
+    op index of its message_parts query}, ext["blobs"], ext["lmtp_idx"]."""
     coq_defs = []
     E = Emit()
     item_cases = []     # (coq tuple, descr)
@@ -640,31 +762,43 @@ def evaluate_attrs(chk, groups, built, results, corpus_mode=False):
              "absent_paths": 0, "crlf_leaves": 0, "rewrap_leaves": 0, "special_names": 0,
              "bare_lf_leaves": 0, "lone_cr_leaves": 0, "bare_lf_blob_leaves": 0, "bare_lf_single_part": 0, "bare_lf_nested_leaves": 0}
     nontrivial = set()
-    for gi, (grp, (ops, plan, q), res) in enumerate(zip(groups, built, results)):
+    for gi, (grp, bt, res) in enumerate(zip(groups, built, results)):
+        ops, plan, q = bt[:3]
+        ext = bt[3] if len(bt) > 3 else None
         if res.get("crashed") or len(res.get("obs", [])) != len(ops):
             chk.broken_obligation("driver crashed on an attrs scenario: %s" % res.get("stderr", "")[:400], {"suite": "attrs"})
             continue
         obs = res["obs"]
-        lm = [o.get("recv", "") for o in obs[4:4 + 4 * len(grp)]]
-        if any(not lm[4 * k + 3].startswith("250") for k in range(len(grp))):
+        if ext:
+            lm = [obs[k].get("recv", "") for k in ext["lmtp_idx"]]
+            lm = [x for r in lm for x in ("250", "250", "354", r)]
+        else:
+            lm = [o.get("recv", "") for o in obs[4:4 + 4 * len(grp)]]
+        if any(not lm[4 * k + 3].startswith("250") for k in range(len(lm) // 4)):
             chk.notes.append("generator produced a message LMTP refused; scenario skipped: %r" % [x[:60] for x in lm if not x.startswith(("250", "354"))][:2])
             continue
-        prow = obs[q].get("rows") or []
-        blobs = dict((r[0], r[1]) for r in (obs[q + 1].get("rows") or []))
+        sqlidx = ext["sql"] if ext else {"user_db_1": q}
+        blobs = dict((r[0], r[1]) for r in (obs[ext["blobs"] if ext else q + 1].get("rows") or []))
         rows_by_msg = {}
-        for r in prow:
-            content = r[7] or ""
-            if r[6] is not None:
-                content = blobs.get(r[6]) or ""
-            rows_by_msg.setdefault(r[1], []).append({"id": r[0], "pn": r[2], "par": r[3], "ct": r[4] or "", "enc": r[5] or "",
-                                                     "content": content, "blob": r[6] is not None})
+        for store, qi in sqlidx.items():
+            for r in (obs[qi].get("rows") or []):
+                content = r[7] or ""
+                if r[6] is not None:
+                    content = blobs.get(r[6]) or ""
+                rows_by_msg.setdefault((store, r[1]), []).append({"id": r[0], "pn": r[2], "par": r[3], "ct": r[4] or "", "enc": r[5] or "",
+                                                                  "content": content, "blob": r[6] is not None})
         fetched = {}
         for (oi, mi, kind, info, cmd) in plan:
             fetched.setdefault(mi, []).append((kind, info, cmd, parse_fetch_safe(obs[oi].get("recv", ""))))
         for mi, m in enumerate(grp):
-            rows = rows_by_msg.get(mi + 1, [])
+            rows = rows_by_msg.get(tuple(ext["vm"][mi]) if ext else ("user_db_1", mi + 1), [])
             tag = "g%dm%d" % (gi, mi)
             payload0 = {"suite": "attrs", "message": m["text"], "replay": "bin/check C14 replay <this file>"}
+            if ext:
+                payload0.update({"suite": "stores", "selected": ext["sel"][mi], "store": ext["vm"][mi][0], "message_id": ext["vm"][mi][1], "ops": ops,
+                                 "fetch_op_indexes": [oi for (oi, vi, _, _, _) in plan if vi == mi]})
+            if mi not in fetched:
+                continue
             fl = fetched[mi]
             main = fl[0][3]
             if main is None or main["n"] != 1 or "BODY[]" not in main["sections"] or main["bs"] is None:
@@ -832,6 +966,18 @@ def evaluate_attrs(chk, groups, built, results, corpus_mode=False):
                                 chk.violation("%s returned %r, the slice of the header is %r" % (cmd, got[:80], whole[o:o + n][:80]), dict(pl, part="e", got=got))
                         if rawname:
                             item_cases.append(("(%s, rows_%s, SecHeader, %s, %s)" % (rawname, tag, coq_part(info["part"]), E.sub(r2, got)), {"msg": m["text"], "cmd": cmd}))
+            # ---- chunked download: the pieces BODY[]<o.n>, in order, make up BODY[]
+            pieces = [(info["chunk"], pr["sections"].get("BODY[]") or "") for (kind, info, cmd, pr) in fl[1:]
+                      if kind == "all_partial" and "chunk" in info and pr is not None and pr["n"] == 1]
+            if pieces:
+                stats["chunked_downloads"] = stats.get("chunked_downloads", 0) + 1
+                whole = "".join(x for _, x in sorted(pieces))
+                mask = set()
+                for mm in re.finditer(r"----=_Part_[A-Za-z]+_(\d+)", raw):
+                    mask.update(range(mm.start(1), mm.end(1)))
+                if len(whole) != len(raw) or any(whole[k] != raw[k] and k not in mask for k in range(len(raw))):
+                    chk.violation("the %d chunks BODY[]<o.n> of a download add up to %d octets, BODY[] has %d%s" % (
+                        len(pieces), len(whole), len(raw), "" if len(whole) != len(raw) else " (content differs)"), dict(payload0, part="e-chunks"))
             # ---- (d)
             check_envelope(chk, m, main["envelope"], payload0, stats)
             if stats["messages"] <= 2:
@@ -858,7 +1004,7 @@ def evaluate_attrs(chk, groups, built, results, corpus_mode=False):
                  "Definition transp_bad := Eval vm_compute in bad (map (fun c : str * list row * bool => let '(raw, rows, single) := c in "
                  "if single then match rows with [r] => str_eqb (text_of (load_raw raw)) (rcontent r) | _ => false end "
                  "else forallb (fun r => negb (is_leaf_row r) || contains (load_raw raw) (crlf ++ crlf ++ written_content (renc r) (rcontent r) ++ [ascii_of_nat 45; ascii_of_nat 45])%list) rows) transp_cases).\nPrint transp_bad.\n")
-        rc, log = C.coq_eval_cases("C14_attrs" if not corpus_mode else "C14_corpus", body)
+        rc, log = C.coq_eval_cases(name or ("C14_attrs" if not corpus_mode else "C14_corpus"), body)
         if rc != 0:
             chk.broken_obligation("in-Coq evaluation of the C14 attrs cases failed:\n" + log[-1500:], {"suite": "attrs"})
         else:
@@ -1062,22 +1208,29 @@ def run(chk):
     t0 = time.time()
     replay_corpus(chk)
     t1 = time.time()
-    nmsg = 160 if quick else 1200
+    nmsg = 128 if quick else 1200
     st = run_attrs(chk, nmsg)
     t2 = time.time()
+    st2 = run_stores(chk, 6 if quick else 40)
+    t2b = time.time()
     nmp = run_mappath(chk, 600 if quick else 2000)
     t3 = time.time()
     nenv = run_envelope(chk, 300 if quick else 1200)
     t4 = time.time()
-    chk.cov["suite_wall_s"] = {"corpus": round(t1 - t0, 1), "attrs": round(t2 - t1, 1), "mappath": round(t3 - t2, 1), "envelope": round(t4 - t3, 1)}
-    chk.cov["evaluations"] = st.get("coq_cases", 0) + nmp + nenv
-    chk.cov["traces_validated_against_impl"] = st.get("messages", 0)
+    chk.cov["suite_wall_s"] = {"corpus": round(t1 - t0, 1), "attrs": round(t2 - t1, 1), "stores": round(t2b - t2, 1), "mappath": round(t3 - t2b, 1), "envelope": round(t4 - t3, 1)}
+    chk.cov["evaluations"] = st.get("coq_cases", 0) + st2.get("coq_cases", 0) + nmp + nenv
+    chk.cov["traces_validated_against_impl"] = st.get("messages", 0) + st2.get("messages", 0)
+    for k, v in st2.items():
+        chk.cov["stores_" + k] = v
     chk.cov["distinct_nontrivial"] = st.get("nontrivial", 0)
     chk.cov["rule"] = ("attrs: seeded messages of the C02 grammar (headers in random order, folded fields, display names plain/quoted/with comma/with quoted pairs; single part or multipart "
                        "nested up to depth 3; leaf content empty / without / with one / with two final line breaks, with bare LF, lone CR and mixed line endings inside the CRLF framing (inline, nested, out of line, single-part bodies; also ending in a bare LF / lone CR), base64 one-line short and long, wrapped with CRLF or bare LF; parts > 1024 octets or with a "
                        "filename are stored as blobs) delivered over LMTP and read over IMAP: one FETCH of RFC822.SIZE BODYSTRUCTURE ENVELOPE BODY[] BODY[HEADER] BODY[TEXT], one per leaf path, "
                        "absent paths, partials on leaves, TEXT, BODY[] and HEADER. Every item is (1) judged by the executable reading of C14 and (2) compared with Model/Sections.v evaluated "
-                       "by vm_compute on the message's part table. distinct_nontrivial = distinct reconstructed texts (boundaries renamed). mappath: random part tables vs map_path. "
+                       "by vm_compute on the message's part table. distinct_nontrivial = distinct reconstructed texts (boundaries renamed). stores: one connection of a user with a role mailbox, different messages under the same message ids in the personal and the role store; "
+                       "attribute sets fetched while switching stores (SELECT/EXAMINE, after CLOSE/UNSELECT, both orders), repeated and interleaved in one mailbox with APPEND and EXPUNGE in between, "
+                       "chunked downloads BODY[]<o.n> whose pieces must add up to BODY[]; every fetch set judged and model-compared against the part table of the store that is selected. "
+                       "mappath: random part tables vs map_path. "
                        "envelope: random header blocks / address lists vs Model/Envelope.v")
     for k, v in st.items():
         chk.cov["attrs_" + k] = v
@@ -1090,6 +1243,15 @@ def run(chk):
 
 def replay(path):
     d = json.load(open(path))
+    if d.get("suite") == "stores" and "ops" in d:
+        C.pregen_all()
+        r = C.run_ops(d["ops"])
+        print("what:", d.get("what"))
+        print("fetch set of message id %s of store %s, selected by: %s" % (d.get("message_id"), d.get("store"), d.get("selected")))
+        for oi in d.get("fetch_op_indexes", []):
+            print(">>", d["ops"][oi]["data"].strip())
+            print(r["obs"][oi].get("recv", "")[:1500])
+        return 0
     if d.get("suite") == "attrs" and ("message" in d or "gen" in d):
         text = d["gen"]["text"] if "gen" in d else d["message"]
         import proto_common as P
